@@ -4,6 +4,8 @@ from vf import minipl
 import rtflite.pagination.strategies.defaults as defaults
 import rtflite.pagination.strategies.grouping as grouping
 from rtflite.pagination.core import PageBreakCalculator as PBC
+from rtflite.pagination.strategies.base import PageContext as _RealPageContext
+from vf.hlib import swapped
 
 
 def run_paginate(which, pages_of_rows, pageby_header, new_page=False, keys=None):
@@ -23,13 +25,10 @@ def run_paginate(which, pages_of_rows, pageby_header, new_page=False, keys=None)
              rtf_body=body, df=df, col_widths=[1.0], table_attrs=None, removed_column_indices=None,
              additional_rows_per_page=0)
     saved_calc = PBC.calculate_row_metadata
-    saved_pc = (defaults.PageContext, grouping.PageContext)
     PBC.calculate_row_metadata = lambda self, **kw: meta
-    defaults.PageContext = lambda **kw: NS(subline_header=None, pageby_header_info=None, group_boundaries=None, **kw)
-    grouping.PageContext = defaults.PageContext
+    page_standin = lambda **kw: NS(subline_header=None, pageby_header_info=None, group_boundaries=None, **kw)  # noqa: E731
     try:
-        with minipl.substituted(defaults, grouping):
+        with swapped((_RealPageContext, page_standin)), minipl.substituted():
             return cls().paginate(ctx)
     finally:
         PBC.calculate_row_metadata = saved_calc
-        defaults.PageContext, grouping.PageContext = saved_pc
